@@ -53,8 +53,12 @@ def run_steps(W, cfg):
     log = dict(add_bound=0)
 
     def add_samples(shell, verbose=False):
-        if len(iters) >= K:
+        # one loop iteration = one evaluation of the loop guard = one clock
+        # reading; the unrolling bound is on iterations, not on calls
+        if len(set(it['clock'] for it in iters) | {W._clock_n - 1}) > K:
             raise BeyondBound('more than %d run() iterations' % K)
+        if len(iters) >= K + 3:
+            raise BeyondBound('too many batches')
         iters.append(dict(n_like=S.n_like, clock=W._clock_n - 1,
                           calls_before=len(like.calls), shell=shell,
                           explored=S.explored))
@@ -89,6 +93,10 @@ def run_steps(W, cfg):
     if 'C10' in props:
         W.require(S.n_like == pre_nlike + n_calls, 'C10:count-equals-calls',
                   '%d calls' % n_calls)
+        W.require(len(set(it['clock'] for it in iters)) == len(iters),
+                  'C10:one-batch-per-step',
+                  '%d batches in %d loop iterations' % (
+                      len(iters), len(set(it['clock'] for it in iters))))
         for k, it in enumerate(iters):
             end = iters[k + 1]['calls_before'] if k + 1 < len(iters) \
                 else n_calls
